@@ -498,7 +498,17 @@ void run_program(int idx, const TaskProg &t)
       case OP_SCOPE_BEGIN:
         if (!ts.scopes[op.b])
         {
-          ts.scopes[op.b].reset(new trace_api::Scope(W->spans[op.a % kSpans]));
+          if (op.c & 1)
+          {
+            // a span object of its own that dies with the scope: the next one may get its
+            // address (immediate-reuse allocator), with another identity
+            nostd::shared_ptr<trace_api::Span> eph(
+                new trace_api::DefaultSpan(W->spans[op.a % kSpans]->GetContext()));
+            ts.scopes[op.b].reset(new trace_api::Scope(eph));
+            vsim::probe("logs.ephemeral_span");
+          }
+          else
+            ts.scopes[op.b].reset(new trace_api::Scope(W->spans[op.a % kSpans]));
           ts.scope_span[op.b] = (int)(op.a % kSpans);
           ts.active.push_back((int)(op.a % kSpans));
         }
@@ -568,7 +578,7 @@ void generate(const std::string &, Rng &wl, Rng &fl, Case &c)
       if (r < 0.2 && nscope < kScopes)
       {
         p.ops.push_back({wl.chance(0.25) ? OP_CTX_BEGIN : OP_SCOPE_BEGIN, (int64_t)wl.below(kSpans),
-                         nscope, 0, 0});
+                         nscope, (int64_t)wl.chance(0.5), 0});
         open.push_back(nscope++);
       }
       else if (r < 0.3 && !open.empty())
@@ -825,7 +835,8 @@ std::string describe_op(const Case &, int, const Op &op)
       return fmt("Emit form %lld %s body alternative %lld", (long long)op.a, forms[op.a % kForms],
                  (long long)op.b);
     case OP_SCOPE_BEGIN:
-      return fmt("scope[%lld] = Scope(span #%lld)", (long long)op.b, (long long)op.a);
+      return fmt("scope[%lld] = Scope(%sspan #%lld)", (long long)op.b,
+                 (op.c & 1) ? "short-lived copy of " : "", (long long)op.a);
     case OP_SCOPE_END:
       return fmt("destroy scope[%lld]", (long long)op.a);
     case OP_GETLOGGER:
